@@ -248,7 +248,15 @@ def run_semantic(ctx, progs):
                ('x exists <<msg>>', 'x exists<<msg>>'), ('x IN [1, 2]', 'x IN[1, 2]'), ('x in [1, 2]', 'x in[1, 2]'), ('x not in [3]', 'x not in[3]'),
                ('Resources.*.Properties.Name in ["n", "m"]', 'Resources.*.Properties.Name in["n", "m"]'), ('Resources.*.Properties.Name IN /n/', 'Resources.*.Properties.Name IN/n/'),
                ('x is_int <<m>>', 'x is_int<<m>>'), ('Resources.*[ Type IN ["T"] ].Properties.Enc exists', 'Resources.*[ Type IN["T"]].Properties.Enc exists'),
-               ('v empty or x exists', 'v empty or x exists'), ('Resources.*[ Properties.Name is_string ] !empty', 'Resources.*[ Properties.Name is_string] !empty')]
+               ('v empty or x exists', 'v empty or x exists'), ('Resources.*[ Properties.Name is_string ] !empty', 'Resources.*[ Properties.Name is_string] !empty'),
+               # blanks just inside the brackets: a named capture over a struct and over a list, with and without a use of the name, an index,
+               # [*], a quoted key, a filter
+               ('Resources[ res ] {\n    Properties.Name !empty\n  }', 'Resources[res] {\n    Properties.Name !empty\n  }'),
+               ('Resources[ res ] {\n    Properties.Enc == true\n    %res exists\n  }', 'Resources[res] {\n    Properties.Enc == true\n    %res exists\n  }'),
+               ('Resources[ res ].Properties.Name == "n"', 'Resources[res].Properties.Name == "n"'), ('Resources[ res ].Type in ["T"]', 'Resources[res].Type in ["T"]'),
+               ('v[ i ] > 0', 'v[i] > 0'), ('some v[ i ] == 2', 'some v[i] == 2'), ('Resources.*.Properties.Tags[ t ] < 3', 'Resources.*.Properties.Tags[t] < 3'),
+               ('v[ * ] >= 1', 'v[*] >= 1'),      # (an index and a quoted key take no blanks inside the brackets: `v[ 0 ]` is a parse error, in the parser and in QueryParse.v alike)
+               ("Resources.*[ Type == 'T' ].Properties.Enc == true", "Resources.*[Type == 'T'].Properties.Enc == true")]
     for sp, co in compact:
         for d in cdoc:
             tb.append(('rule r {\n  %s\n}\n' % sp, 'rule r {\n  %s\n}\n' % co, d))
